@@ -137,6 +137,8 @@ func c05case(s *Sexp) string {
 		sc.yields["pubsub.Queue.Producer.unlocked"] = true
 		defer sc.close()
 		return sc.run(choices, 200)
+	case "qstress":
+		return qstressCase(s)
 	case "qprobe":
 		switch s.List[1].Atom {
 		case "wait":
